@@ -78,7 +78,7 @@ func (w *World) recordChanged(name string) {
 		delete(w.prevENI, name)
 		w.removedAt[name] = now
 		w.run.S.Log("record", "%s removed", name)
-		w.eniQ.Add(name)
+		w.eniEvent(name)
 		return
 	case cur == nil:
 		return
@@ -98,7 +98,7 @@ func (w *World) recordChanged(name string) {
 		if cur.Status.Phase != v1beta1.ENIPhaseInitial {
 			w.run.Violate("C10", "phases", "record-created-in-phase-"+phaseName(cur.Status.Phase), "record %s was created in phase %s", name, cur.Status.Phase)
 		}
-		w.eniQ.Add(name)
+		w.eniEvent(name)
 		return
 	}
 	// ---- C10 O1: phase transitions
@@ -112,8 +112,16 @@ func (w *World) recordChanged(name string) {
 		w.checkFixedGivenUp(name, old, now)
 	}
 	if cur.ResourceVersion != old.ResourceVersion && podeni.UpdateEventPassesForSim(old, cur) {
-		w.eniQ.Add(name)
+		w.eniEvent(name)
 	}
+}
+
+// eniEvent: without the cache model the controller's event fires with the write.
+func (w *World) eniEvent(name string) {
+	if w.cfg.CacheLagMs > 0 {
+		return
+	}
+	w.eniQ.Add(name)
 }
 
 func (w *World) checkFixedGivenUp(name string, old *v1beta1.PodENI, now time.Time) {
@@ -173,6 +181,27 @@ func compactRecord(r *v1beta1.PodENI) string {
 }
 
 func (w *World) onPassStart(queue, name string) {}
+
+// onPassEnd: C10 "when creation fails partway, every interface already created is deleted, so no
+// interface exists without a record" - judged when the pod controller's pass returns: what the
+// pass created is recorded, or gone, or its rollback delete was attempted and failed, or the
+// create call itself reported failure (the controller never learnt the id).
+func (w *World) onPassEnd(queue, name, label string, err error) {
+	if queue != "pod" {
+		return
+	}
+	w.run.Eval()
+	for _, id := range w.cloud.order {
+		e := w.cloud.enis[id]
+		if e == nil || e.CreatedIn != label {
+			continue
+		}
+		if len(w.referencedBy(id)) > 0 || w.cloud.deleteFailed[id] || w.cloud.orphanOfFailedCreate(id) {
+			continue
+		}
+		w.run.Violate("C10", "rollback", "created-interface-neither-recorded-nor-rolled-back", "interface %s was created by %s, which returned (err=%v) leaving it without a record and without an attempt to delete it", id, label, err)
+	}
+}
 
 // referencedBy returns the records (API truth) that list the interface.
 func (w *World) referencedBy(eniID string) []*v1beta1.PodENI {
@@ -283,6 +312,13 @@ func (w *World) settle() {
 	if w.sc.SettleS <= 0 {
 		return
 	}
+	// a hung attach is a fault too: it completes now
+	for _, id := range w.cloud.order {
+		if e := w.cloud.enis[id]; e != nil && e.NeverUp {
+			e.NeverUp = false
+			e.ReadyAt = time.Now().Add(2 * time.Second)
+		}
+	}
 	// every key gets one more event, as a periodic resync of the informers would deliver
 	for _, p := range w.pods {
 		if p.exists {
@@ -322,6 +358,20 @@ func (w *World) settle() {
 			if rec == nil && len(p.lastIPs) > 0 && w.removedAt[p.spec.Name].After(p.goneAt) {
 				w.run.Violate("C11", "release-strategy", "never-released-record-gone", "pod %s (strategy Never) vanished %s ago and its record is gone", p.spec.Name, gone.Round(time.Second))
 			}
+		}
+	}
+	// C11: a fixed-IP pod recreated under its name is bound again to the record that was kept
+	for _, p := range w.pods {
+		if !p.exists || p.exited || !p.fixed() || p.spec.Owner == "deploy" || p.uidGen < 2 || time.Since(p.created) < 15*time.Minute || !w.keptAtCreate[p.uid] {
+			continue
+		}
+		rec := w.truthENI(p.spec.Name)
+		if rec == nil || rec.Status.Phase != v1beta1.ENIPhaseBind || rec.Annotations[types.PodUID] != p.uid {
+			got := "none"
+			if rec != nil {
+				got = compactRecord(rec)
+			}
+			w.run.Violate("C11", "fixed-ip", "recreated-pod-not-rebound", "fixed-IP pod %s was recreated (uid %s) %s ago while its record was kept, %s after faults stopped it is not bound to it; record: %s", p.spec.Name, p.uid, time.Since(p.created).Round(time.Second), settled, got)
 		}
 	}
 	// C10 conservation: no interface of ours without a record (the leak collector has had the time)
